@@ -92,6 +92,9 @@ pub fn name_nets(k: u16) -> Result<Vec<Arc<Bound>>, String> {
         ("nam2", "x -?? xx; xx -| x; $x: !xx"),
         ("pre2", "a -> ab; ab -?? a; ab -?? ab; $ab: a | ab"),
         ("kw2", "EF1 -| TRUE; TRUE -?? EF1; $TRUE: !EF1"),
+        // explicit parameters whose order of first use (g, f) differs from the alphabetical order of their names
+        ("ord2", "b -?? a; a -?? b; $a: g(b); $b: f(a)"),
+        ("ord3", "c -?? a; a -?? b; b -?? c; $a: q | c; $b: a & p; $c: b"),
     ];
     let mut out = vec![];
     for (name, text) in specs {
